@@ -33,7 +33,7 @@ ASSUMPTIONS = [
 ]
 EXHAUSTIVE = {"quick": True, "thorough": True}
 SHARDS = {"quick": 12, "thorough": 14}
-FLOORS = {"quick": {"crash_points": 250, "killed_by_shim": 250, "recoveries": 500, "torn_write_points": 20},
+FLOORS = {"quick": {"crash_points": 200, "killed_by_shim": 200, "recoveries": 400, "torn_write_points": 15},
           "thorough": {"crash_points": 250, "killed_by_shim": 250, "recoveries": 500, "torn_write_points": 20, "strace_crosschecks": 10}}
 
 QUICK_W = ["W1", "W3", "W4", "W6", "W9"]
